@@ -85,6 +85,7 @@ fault_kinds! {
     Shutdown => "shutdown_midrun",
     AcceptError => "accept_error",
     UdpRecvError => "udp_recv_error",
+    TaskPanic => "task_panic",
 }
 pub const N_FAULTS: usize = FAULT_NAMES.len();
 
@@ -271,7 +272,7 @@ pub const STEP_BOUND_MSG: &str = "SIMRT-STEP-BOUND exhausted";
 /// the code under test that take locks outside a live execution.)
 #[inline]
 pub fn check_abort() {
-    if ABORT.with(|a| a.get()) && !std::thread::panicking() {
+    if ABORT.with(|a| a.get()) && !thread::panicking() {
         panic!("{}", STEP_BOUND_MSG);
     }
 }
@@ -291,6 +292,11 @@ pub(crate) fn unblock(t: TaskId) {
             }
         }
     });
+}
+/// The harness's panic hook reports every panic that runs the hook (i.e. every panic that is not
+/// an injected, contained crash) here.
+pub fn note_genuine_panic() {
+    shuttle_engine::contained_unwind::note_genuine();
 }
 /// A bare scheduling point.
 pub fn switch() {
